@@ -350,6 +350,20 @@ pub fn features() -> Vec<(&'static str, Vec<Item>)> {
                 c("D1", vec![], vec![CRef::plain("D0")], None),
                 def("dd", vec![CRef::plain("D1")], None),
                 def("holder", vec![], Some(vec![f(Ty::Class("D0".into()), "up", id("dd")), f(list(Ty::Class("D0".into())), "ups", E::List(vec![id("dd")]))])),
+                // the same through a top-level let, a body let and a template argument; `down` asks for the subclass
+                def("d0", vec![CRef::plain("D0")], None),
+                c(
+                    "HolderD",
+                    vec![TArg { ty: Ty::Class("D0".into()), name: "hp".into(), default: Some(id("dd")) }],
+                    vec![],
+                    Some(vec![f(Ty::Class("D0".into()), "up", id("hp")), f(list(Ty::Class("D0".into())), "ups", E::List(vec![])), f(Ty::Class("D1".into()), "down", E::Unset)]),
+                ),
+                Item::Let {
+                    binds: vec![("up".into(), id("dd")), ("ups".into(), E::List(vec![id("dd"), id("d0")])), ("down".into(), id("dd"))],
+                    body: vec![def("hd1", vec![CRef::with("HolderD", vec![id("dd")])], None), def("hd2", vec![CRef::plain("HolderD")], Some(vec![BI::Let { name: "up".into(), value: E::ClassVal("D1".into(), vec![], vec![]) }]))],
+                    braces: true,
+                },
+                Item::Let { binds: vec![("up".into(), E::ClassVal("D1".into(), vec![], vec![]))], body: vec![def("hd3", vec![CRef::plain("HolderD")], None)], braces: false },
             ],
         ),
         (
@@ -477,6 +491,8 @@ fn incompatible(t: &Ty) -> Vec<&'static str> {
             v
         }
         Ty::Dag => vec!["77", "\"wrong\"", "[77]", "op"],
+        // `d0` is a record of the base class D0 only (declared by the feature that declares D1)
+        Ty::Class(c) if c == "D1" => vec!["77", "\"wrong\"", "[77]", "(op)", "op", "d0", "D0<>"],
         Ty::Class(_) => vec!["77", "\"wrong\"", "[77]", "(op)", "op"],
     }
 }
